@@ -438,6 +438,13 @@ class Evaluator(object):
     def run_loop(self, node, it, target, body, st, frame, conds=(), body_expr=None):
         """Summarise one `for` loop (or comprehension generator) over iterable value `it`."""
         depth = len(frame.loops)
+        pre_filter = ()
+        if (isinstance(it, tuple) and len(it) == 5 and it[0] == "comp" and it[1] in ("list", "gen") and isinstance(it[2], tuple) and it[2][:1] == ("elem",) and len(it[2]) == 3
+                and it[2][1] == it[3]):
+            # iterating [x for x in xs if cond(x)] is iterating xs under the filter cond
+            inner_elem, filt_, it = it[2], it[4], it[3]
+            new_elem = ("elem", it, depth)
+            pre_filter = tuple((sym.substitute(a_, {inner_elem: new_elem}), p_) for a_, p_ in filt_)
         elem = ("elem", it, depth)
         loop = Loop(node, it, elem)
         # loop-carried candidates: every local / heap slot assigned in the body
@@ -466,6 +473,9 @@ class Evaluator(object):
         frame.loops.append(loop)
         body_state = st.copy()
         self.bind_target(target, elem, it, body_state, frame, node)
+        for a_, p_ in pre_filter:
+            body_state.guard.append((a_, p_))
+            loop.filter.append((a_, p_))
         for c in conds:
             cv = self.ev(c, body_state, frame)
             body_state.guard.extend(literals(cv, True))
@@ -641,27 +651,107 @@ class Evaluator(object):
         for h in s.handlers:
             en = h.type.id if isinstance(h.type, ast.Name) else None
             atoms.append(("raised", tid, en))
-        body_lits = [(a, False) for a in atoms]
+        # a body made only of look-ups, guarded against KeyError: the exception is raised exactly when one of the keys is missing,
+        # so the condition is that disjunction (and `try: a[k1][k2]` composes with `try: a[k1]` followed by `try: _[k2]`)
+        if len(s.handlers) == 1 and atoms[0][2] == "KeyError" and not s.finalbody and self._lookup_only(s.body):
+            # probe run of the body on a scratch state: every subscript it evaluates, in evaluation order
+            probe = st.copy()
+            probe_frame = Frame(frame.fn, frame.host, frame.chain)
+            probe_frame.loops = list(frame.loops)
+            saved_events, saved_trace = self.summary.events, getattr(self, "_sub_trace", None)
+            self.summary.events = []
+            self._sub_trace = []
+            try:
+                self.exec_block(s.body, probe, probe_frame)
+                miss = [("cmp", "notin", k_, d_) for d_, k_ in self._sub_trace]
+                if miss and len(miss) <= 6:
+                    atoms[0] = miss[0] if len(miss) == 1 else ("or",) + tuple(miss)
+            except Exception:
+                pass
+            finally:
+                self.summary.events = saved_events
+                self._sub_trace = saved_trace
+        body_lits = []
+        for a in atoms:
+            body_lits.extend(literals(a, False) if a[0] != "raised" else [(a, False)])
+        n_before = len(st.guard)
         st.guard.extend(body_lits)
+        if atoms and atoms[0][0] != "raised":
+            st.graw.append((atoms[0], False))
         self.exec_block(s.body, st, frame)
         if s.orelse and st.alive is True:
             self.exec_block(s.orelse, st, frame)
         for h, atom in zip(s.handlers, atoms):
             hs = pre.copy()
-            hs.guard.append((atom, True))
+            h_lits = literals(atom, True) if atom[0] != "raised" else [(atom, True)]
+            h_start = len(hs.guard)
+            hs.guard.extend(h_lits)
+            if atom[0] != "raised":
+                hs.graw.append((atom, True))
             if h.name:
                 hs.locals[h.name] = ("opaque", "exc")
             self.exec_block(h.body, hs, frame)
-            hs.guard = [l for l in hs.guard if l != (atom, True)]
+            if hs.guard[h_start:h_start + len(h_lits)] == h_lits:
+                del hs.guard[h_start:h_start + len(h_lits)]  # only what this handler added (the same fact may be known from before)
             if hs.alive is True and st.alive is True:
                 merged = _merge_states(atom, hs, st)
                 st.locals, st.heap, st.sub = merged.locals, merged.heap, merged.sub
                 st.epoch, st.epoch_all = merged.epoch, merged.epoch_all
-                st.guard = [l for l in st.guard if l != (atom, False)]
+                if st.guard[n_before:n_before + len(body_lits)] == body_lits:
+                    del st.guard[n_before:n_before + len(body_lits)]
+                    body_lits = []
+                st.graw = [r_ for r_ in st.graw if r_ != (atom, False)]
             elif hs.alive is True:
                 st.locals, st.heap, st.sub, st.guard, st.alive = hs.locals, hs.heap, hs.sub, hs.guard, True
         if s.finalbody and st.alive is True:
             self.exec_block(s.finalbody, st, frame)
+
+    @staticmethod
+    def _lookup_only(body):
+        """the body only looks things up: assignments / returns / bare expressions (possibly in a `for` over a local) made of
+        names, attribute reads, subscripts and constants - nothing that could raise KeyError other than a missing key"""
+        ok_expr = (ast.Name, ast.Attribute, ast.Subscript, ast.Constant, ast.Load, ast.Store, ast.Tuple)
+        seen_sub = [False]
+
+        def expr_ok(val):
+            for n_ in ast.walk(val):
+                if not isinstance(n_, ok_expr):
+                    return False
+                if isinstance(n_, ast.Subscript):
+                    seen_sub[0] = True
+            return True
+
+        def block_ok(stmts):
+            for b_ in stmts:
+                if isinstance(b_, ast.Assign) and len(b_.targets) == 1 and isinstance(b_.targets[0], (ast.Name, ast.Attribute)):
+                    if not expr_ok(b_.value):
+                        return False
+                elif isinstance(b_, ast.AnnAssign) and b_.value is not None and isinstance(b_.target, (ast.Name, ast.Attribute)):
+                    if not expr_ok(b_.value):
+                        return False
+                elif isinstance(b_, (ast.Return, ast.Expr)) and b_.value is not None:
+                    if not expr_ok(b_.value):
+                        return False
+                elif isinstance(b_, ast.For) and isinstance(b_.iter, ast.Name) and not b_.orelse:
+                    if not block_ok(b_.body):
+                        return False
+                else:
+                    return False
+            return True
+
+        return bool(body) and block_ok(body) and seen_sub[0]
+
+    @staticmethod
+    def _subscripts_in_eval_order(expr):
+        out = []
+
+        def rec(n_):
+            for c_ in ast.iter_child_nodes(n_):
+                rec(c_)
+            if isinstance(n_, ast.Subscript):
+                out.append(n_)
+        rec(expr)
+        return out
 
     def st_With(self, s, st, frame):
         for it in s.items:
@@ -743,7 +833,23 @@ class Evaluator(object):
         obj = self.ev(e.value, st, frame)
         return self.read_attr(obj, e.attr, st, frame, e)
 
+    def _namedtuple_attr(self, obj, name):
+        """field `name` of a namedtuple value (through phi nodes), else None"""
+        nt = getattr(self, "_nt_fields", None)
+        if not nt or not isinstance(obj, tuple) or not obj:
+            return None
+        if obj[0] == "tuple" and obj in nt and name in nt[obj]:
+            return obj[1 + nt[obj].index(name)]
+        if obj[0] == "ite" and len(obj) == 4:
+            a, b = self._namedtuple_attr(obj[2], name), self._namedtuple_attr(obj[3], name)
+            if a is not None or b is not None:
+                return _ite(obj[1], a if a is not None else ("attr", obj[2], name), b if b is not None else ("attr", obj[3], name))
+        return None
+
     def read_attr(self, obj, name, st, frame, node):
+        ntv = self._namedtuple_attr(obj, name)
+        if ntv is not None:
+            return ntv
         t = obj[0]
         if t == "mod":
             dotted = "%s.%s" % (obj[1], name)
@@ -829,6 +935,12 @@ class Evaluator(object):
                 return self.read_field(obj, b[1], st, frame, node)
             if b[0] == "series":
                 return ("hist", obj, b[1])
+        if len(props) == 1 and name not in self.no_inline and len(frame.chain) <= self.inline_depth:
+            # a computed property whose body is one `return <expression>` (no statements, no refresh) is that expression
+            p0 = props[0]
+            body = [b_ for b_ in p0.node.body if not (isinstance(b_, ast.Expr) and isinstance(b_.value, ast.Constant))]
+            if len(body) == 1 and isinstance(body[0], ast.Return) and body[0].value is not None and p0.qual not in frame.chain:
+                return self.call_function(p0, obj, frame.host if obj == SELF_OF(frame) else (p0.cls), [], {}, st, frame, node, recv=obj, via_super=True, closure=None)
         return ("prop", obj, name)
 
     def ntype(self, v, frame):
@@ -854,6 +966,8 @@ class Evaluator(object):
             base = v[1]
             if base[0] == "elem" and v[2] == 1:
                 it = base[1]
+                while it[0] == "call" and it[1] in ("list", "tuple") and len(it[2]) == 1:
+                    it = it[2][0]  # a snapshot of the pairs
                 if it[0] == "mcall" and it[2] == "items" and self.is_children_dict(it[1], frame):
                     return "Node"
             return None
@@ -903,6 +1017,8 @@ class Evaluator(object):
     def ex_Subscript(self, e, st, frame):
         base = self.ev(e.value, st, frame)
         idx = self.ev_index(e.slice, st, frame)
+        if getattr(self, "_sub_trace", None) is not None:
+            self._sub_trace.append((base, idx))
         k = (canon(base), canon(idx))
         if k in st.sub:
             return st.sub[k]
@@ -1095,8 +1211,34 @@ class Evaluator(object):
         fv = self.ev(f, st, frame)
         return self.call_value(fv, args, kwargs, st, frame, e)
 
+    def _namedtuple_fields(self, name, frame):
+        """fields of a module-level `X = namedtuple("X", [...])`, else None"""
+        for (mod, n_), val in self.prog.constants.items():
+            if n_ != name or not isinstance(val, ast.Call):
+                continue
+            f = val.func
+            fname = f.id if isinstance(f, ast.Name) else f.attr if isinstance(f, ast.Attribute) else None
+            if fname == "namedtuple" and len(val.args) >= 2:
+                spec = val.args[1]
+                if isinstance(spec, (ast.List, ast.Tuple)) and all(isinstance(x, ast.Constant) and isinstance(x.value, str) for x in spec.elts):
+                    return [x.value for x in spec.elts]
+                if isinstance(spec, ast.Constant) and isinstance(spec.value, str):
+                    return spec.value.replace(",", " ").split()
+        return None
+
     def call_value(self, fv, args, kwargs, st, frame, node):
         t = fv[0]
+        fnode = getattr(node, "func", None)
+        if isinstance(fnode, ast.Name) and fnode.id not in st.locals:
+            fields = self._namedtuple_fields(fnode.id, frame)
+            if fields is not None and len(args) + len(kwargs) == len(fields) and all(k in fields for k in kwargs) and "**" not in kwargs:
+                # a namedtuple is the tuple of its fields
+                vals = list(args) + [kwargs[f_] for f_ in fields[len(args):]]
+                out_ = ("tuple",) + tuple(vals)
+                if not hasattr(self, "_nt_fields"):
+                    self._nt_fields = {}
+                self._nt_fields[out_] = list(fields)
+                return out_
         if t == "func":
             name = fv[1]
             fi = self.prog.functions.get((frame.fn.module, name))
